@@ -163,7 +163,26 @@ pub fn install_panic_hook() {
             "<non-string panic>".to_string()
         };
         let loc = normalise_loc(&loc);
-        LAST_PANIC.with(|p| *p.borrow_mut() = Some(format!("{loc}: {msg}")));
+        // generic assertion sites (grid accessors, core arithmetic) say little: add the first caller in /repo
+        let mut via = String::new();
+        if loc.contains("jxl-grid/") || !loc.starts_with("crates/") {
+            let bt = std::backtrace::Backtrace::force_capture().to_string();
+            for l in bt.lines() {
+                let l = l.trim();
+                if let Some(rest) = l.strip_prefix("at ") {
+                    if let Some(i) = rest.find("/repo/crates/") {
+                        let f = &rest[i + 6..];
+                        if !f.contains("jxl-grid/") {
+                            // drop the column
+                            let f = f.rsplit_once(':').map(|x| x.0).unwrap_or(f);
+                            via = format!(" [via {f}]");
+                            break;
+                        }
+                    }
+                }
+            }
+        }
+        LAST_PANIC.with(|p| *p.borrow_mut() = Some(format!("{loc}: {msg}{via}")));
         if !QUIET.with(|q| q.get()) {
             prev(info);
         }
@@ -200,6 +219,10 @@ pub fn panic_sig(p: &str) -> String {
     let mut out = String::new();
     let mut last_digit = false;
     // keep the location (up to first ": ") verbatim
+    let (p, via) = match p.rfind(" [via ") {
+        Some(i) => (&p[..i], &p[i..]),
+        None => (p, ""),
+    };
     let (loc, msg) = match p.find(": ") {
         Some(i) => (&p[..i], &p[i + 2..]),
         None => ("", p),
@@ -215,7 +238,7 @@ pub fn panic_sig(p: &str) -> String {
             last_digit = false;
         }
     }
-    format!("panic@{loc}: {out}")
+    format!("panic@{loc}: {out}{via}")
 }
 
 // ---------------------------------------------------------------------------
